@@ -212,6 +212,10 @@ func (t *Table) GetNextHop(target boson.Address, skips ...boson.Address) (next [
 		// remove duplication next
 		list := make(map[string]boson.Address, len(routes))
 		for _, v := range routes {
+			// a route whose path is gone (deleted, expired or not resumed) is stale
+			if _, has := t.paths.Load(v.PathKey); !has {
+				continue
+			}
 			if !v.Neighbor.MemberOf(skips) {
 				list[v.Neighbor.String()] = v.Neighbor
 			}
@@ -253,6 +257,7 @@ func (t *Table) Delete(path *Path) {
 			}
 			if len(routesNow) < len(routes) {
 				t.routes[targetKey] = routesNow
+				_ = t.store.Put(routePrefix+target.String(), routesNow)
 			}
 		}
 	})
